@@ -137,7 +137,11 @@ class PullSetupOpsOutOfLoops(RewritePattern):
                     safe_values.add(key)
         # remove all unsafe vals form potentially safe values
         # also pick a deterministic, fixed order for the rest of the rewrite
-        loop_invariant_options = tuple(sorted(safe_values - unsafe_vals))
+        # values that are already set up in front of the loop do not need to be hoisted (again)
+        init_state = infer_state_of(get_initial_value_for_scf_for_lcv(loop_op, op.in_state))
+        loop_invariant_options = tuple(
+            key for key in sorted(safe_values - unsafe_vals) if init_state.get(key) != acc_fields_to_values[key]
+        )
 
         # nothing to do if everything is loop dependent
         if not loop_invariant_options:
